@@ -37,6 +37,7 @@ func c05RichCfgFor(extendedChild bool) kit.WorldCfg {
 			{A: "cs", FieldA: "rcb", B: "bs", FieldB: "rcc", RefCounted: true},
 			{A: "ak", FieldA: "klinks", B: "bs", FieldB: "kback"},
 			{A: "ds", FieldA: "rcb", B: "bs", FieldB: "rcd", RefCounted: true},
+			{A: "ak", FieldA: "krc", B: "bs", FieldB: "krcb", RefCounted: true}, // a ref-counted collection declared on the child store
 		},
 	}
 }
@@ -293,6 +294,23 @@ func runC05(h kit.History) kit.Result {
 	res := kit.Result{Sub: len(h.Txs)}
 	st, err := kit.RunHistory(h, nil)
 	res.Err = err
+	if err == nil && len(h.Txs)%8 == 5 {
+		// the same history once more, in two databases of one process written at the same time by two goroutines:
+		// each database is its own world
+		errs := make(chan error, 2)
+		for g := 0; g < 2; g++ {
+			go func() {
+				_, e := kit.RunHistory(h, nil)
+				errs <- e
+			}()
+		}
+		for g := 0; g < 2; g++ {
+			if e := <-errs; e != nil && res.Err == nil {
+				res.Err = fmt.Errorf("the history run in two databases at the same time: %v", e)
+			}
+		}
+		res.Classes = append(res.Classes, "two-databases-written-concurrently")
+	}
 	// features from a pure model replay
 	var setMixed, setDup, countToZero, deleteLinked bool
 	m := kit.NewModel(h.Cfg)
